@@ -49,7 +49,7 @@ def gen_cases(tier, rng):
         halfwin_cm = (math.pi / (2 * dt)) / U.E_FAC["1/cm"]
         where = str(rng.choice(["centre", "centre", "low-edge", "high-edge"]))
         cases.append({"cls": ("monomer" if N == 1 else "aggregate"), "N": N, "sys": s, "where": where, "halfwin_cm": halfwin_cm,
-                      "with_tensor": (str(rng.choice(["none", "none", "stR", "stR-TD"])) if N > 1 else "none"),
+                      "with_tensor": (str(rng.choice(["none", "none", "stR", "stR-TD", "cRF-cut"])) if N > 1 else "none"),
                       "seed": int(rng.integers(1 << 30)), "cost": 2 + N * Nt / 300.0 + (Nt / 60.0 if N > 1 else 0)})
     return cases
 
@@ -129,7 +129,13 @@ def run_case(case, ctx):
         tensor = hamR = None
         if case["with_tensor"] != "none":
             with contextlib.redirect_stdout(out):
-                tensor, hamR = sysobj.get_RelaxationTensor(t, relaxation_theory="stR", time_dependent=(case["with_tensor"] == "stR-TD"))
+                if case["with_tensor"] == "cRF-cut":
+                    # couplings below a cut-off are left out of the effective Hamiltonian (it keeps them as a remainder)
+                    offd = numpy.abs(numpy.array(desc["J"], dtype=float)[numpy.triu_indices(N, 1)])
+                    jcut_cm = float(numpy.median(offd[offd > 0])) * 1.000001 if numpy.any(offd > 0) else 1.0
+                    tensor, hamR = sysobj.get_RelaxationTensor(t, relaxation_theory="cRF", coupling_cutoff=jcut_cm * U.E_FAC["1/cm"])
+                else:
+                    tensor, hamR = sysobj.get_RelaxationTensor(t, relaxation_theory="stR", time_dependent=(case["with_tensor"] == "stR-TD"))
     Hobj = sysobj.get_Hamiltonian()
     Dobj = sysobj.get_TransitionDipoleMoment() if N > 1 else None
     snaps_before = {"H": sentinels.snapshot(Hobj)}
@@ -168,6 +174,8 @@ def run_case(case, ctx):
         lines = [(float(dip[0] @ dip[0]), E[0], gs[0], None)]
         rwa_ref = E[0]
     else:
+        if case["with_tensor"] == "cRF-cut":
+            Jm = numpy.where(numpy.abs(Jm) >= jcut_cm * U.E_FAC["1/cm"], Jm, 0.0)
         H = numpy.diag(E) + Jm
         wv, C = numpy.linalg.eigh(H)
         rwa_ref = float(numpy.mean(E))
